@@ -544,5 +544,53 @@ def concatenateAssign (x y : FPoly) : FPoly × FPoly :=
       let exact := added.foldl (fun s r => s.insertRow false x.nnc r) cs1
       ({ q with p := { q.p with cs := q.p.cs.refineBy exact } }, y)
 
+/-- `add_recycled_constraints(cs)` (:1560) for a system `cs` of the receiver's topology and dimension,
+    receiver of positive dimension -/
+def addRecycledConstraintsSys (x : FPoly) (cs : Sys) : FPoly :=
+  if cs.rows.isEmpty || x.st.empty then x
+  else
+    let x := x.needCons
+    let q := x.p.addRecycledConstraints cs.rows
+    let exact := if x.st.canPend then x.p.cs.insertPendingSys cs.rows else x.p.cs.insertSysExact false x.nnc cs
+    { x with p := { q with cs := q.cs.refineBy exact } }
+
+/-- `expand_space_dimension(var, m)` (Polyhedron_chdims.cc:401): embed, `constraints()`, the new rows
+    collected in a fresh `Constraint_System` (inserted one by one), `add_recycled_constraints` -/
+def expandSpaceDimension (x : FPoly) (v m : Nat) : FPoly :=
+  if m == 0 then x
+  else
+    let oldDim := x.dim
+    let x2 := (x.addSpaceDimensionsAndEmbed m).constraints
+    let rows := if x2.st.empty then [] else x2.p.cs.rows.flatMap (expandRow v oldDim m)
+    let ncs := rows.foldl (fun s r => s.insertRow false x.nnc r) Sys.clear
+    x2.addRecycledConstraintsSys ncs
+
+/-- `fold_space_dimensions(vars, dest)` (Polyhedron_chdims.cc:455): `generators()`, then for every
+    `i ∈ vars` a copy gets `affine_image(dest, Variable(i))` and is joined in, then `vars` is removed -/
+def foldSpaceDimensions (x : FPoly) (vars : List Nat) (dest : Nat) : FPoly :=
+  if vars.isEmpty then x
+  else
+    let x1 := x.generators
+    let x2 :=
+      if x1.st.empty then x1
+      else vars.foldl (fun acc i =>
+        let copy := acc.affineImage dest ⟨List.replicate i 0 ++ [1] ++ List.replicate (acc.dim - i - 1) 0, 0⟩ 1
+        (acc.polyHullAssign copy).1) x1
+    x2.removeSpaceDimensions vars
+
+/-- `map_space_dimensions(pfunc)` (Polyhedron_templates.hh:153) for a permutation or a map with empty
+    codomain (`f[j] = pfunc(j)`); the general case builds a new polyhedron from a generator system read
+    through `Generator_System::const_iterator` and is not part of this model -/
+def mapSpaceDimensions (x : FPoly) (f : List (Option Nat)) : FPoly :=
+  if x.dim == 0 then x
+  else if f.all (· == none) then
+    if x.st.empty then x.liftO (x.p.map_space_dimensions f)
+    else
+      let r := if x.st.cPend then x.removePendingToObtainGenerators else (true, x)
+      let r := if r.1 && !r.2.st.gUp then r.2.updateGenerators else r
+      if !r.1 then { r.2 with p := { r.2.p with dim := 0, cs := Sys.clear } }
+      else r.2.setZeroDimUniv
+  else x.liftO (x.p.map_space_dimensions f)
+
 end FPoly
 end PPLV.PolyFull
